@@ -1013,7 +1013,9 @@ func bxvConcurrent(fails *[]bxvFailure) int {
 func bxvHistory(fails *[]bxvFailure) int {
 	n := 0
 	exprs := []string{`"/M/a~1b" is empty`, `"/M/a~1b" matches "x"`, `x in "/M/a~1b"`, `any "/M/a~1b" as v { v == 1 }`, `"/M/t~0d" is not empty`, `M["a/b"] is empty`,
-		"S matches `a.*`", "X == 1", "any L as x { x == 2 }", "M.zz == 1", "Zz == 1", "M.zz != 1", "M.zz is empty", "M.zz.y != 1", "1 in M.zz", "all M.zz as x { x == 1 }", "X == 1.0", "X in L"}
+		"S matches `a.*`", "X == 1", "any L as x { x == 2 }", "M.zz == 1", "Zz == 1", "M.zz != 1", "M.zz is empty", "M.zz.y != 1", "1 in M.zz", "all M.zz as x { x == 1 }", "X == 1.0", "X in L",
+		// a single-name binding over something that is a map in one datum and a list in the next
+		"any M as x { x == 1 }", `all M as x { x != "zz" }`, `any L as x { x == "x" }`}
 	// same Go type, different shape behind the interfaces: what one datum taught the evaluator must not leak into the next
 	data := []interface{}{
 		map[string]interface{}{"S": "abc", "X": 1, "L": []int{1, 2}, "M": map[string]int{}},
